@@ -48,7 +48,70 @@ def main(tier, only=None):
               e1.H("h_emit_text", "emit/text", unwind=42, timeout=300, defines=("HK_text",),
                    replace_calls=("gen_stmt:stub_gen_stmt",))]
         e1.run_set(chk, "c15/emit.c", hs, workers=4)
+    if want("unit"):
+        unit_family(chk, thorough)
     return chk.finish()
+
+
+def unit_family(chk, thorough):
+    """Whole-pipeline view (E2): single translation units whose declarations exercise the linkage rules; `long m(void)`
+    combines every object/function into one value. The emitted unit is assembled with the real `as` and executed
+    symbolically at program start (static data = the emitted image, .comm = zero bytes, every same-unit call inlined,
+    indirect calls through emitted address constants resolved): the value must be the C11 value, which needs every
+    referenced static (inline) function to be emitted, every tentative definition to be defined exactly once with its
+    complete type, and extern-with-initializer to define. A function that is not emitted shows up as an external
+    call (symbolic result)."""
+    import z3, re
+    import e2, asmx
+    from cref import LONG
+    TRUE = z3.BoolVal(True)
+    fns = "static inline int h(void) { return 7; }\nstatic inline int g(void) { return 10 + h(); }\nstatic inline int f(void) { return 100 + g(); }\nstatic inline int dead(void) { return 99 + h(); }\n"
+    cases = [
+        # (key, file-scope text, body of m, expected value)
+        ("inline/direct-chain", fns, "return f();", 117),
+        ("inline/file-scope-pointer-after-definitions", fns + "int (*p)(void) = f;\n", "return p();", 117),
+        ("inline/file-scope-pointer-before-definition", "static inline int f(void);\nint (*p)(void) = f;\nstatic inline int f(void) { return 31; }\n", "return p();", 31),
+        ("inline/file-scope-table", fns + "static int (*tab[2])(void) = { g, h };\n", "return tab[0]() * 100 + tab[1]();", 1707),
+        ("inline/static-local-pointer", fns, "static int (*q)(void) = g; return q();", 17),
+        ("inline/address-taken-local", fns, "int (*loc)(void) = f; return loc();", 117),
+        ("inline/address-of-operator", fns, "int (*loc)(void) = &g; return (*loc)();", 17),
+        ("inline/passed-as-argument", fns + "static int apply(int (*fn)(void)) { return fn() + 1; }\n", "return apply(h);", 8),
+        ("inline/conditional-operand", fns, "int (*loc)(void) = 1 ? g : h; return loc();", 17),
+        ("inline/struct-member-initializer", fns + "struct Ops { int k; int (*op)(void); };\nstatic struct Ops ops = { 2, f };\n", "return ops.k * 1000 + ops.op();", 2117),
+        ("inline/redeclared-after-use", "static inline int f(void) { return 5; }\nint (*p)(void) = f;\nstatic inline int f(void);\n", "return p();", 5),
+        ("tentative/twice", "int a; int a;\n", "return a + 40;", 40),
+        ("tentative/then-initialised-then-tentative", "int b; int b = 7; int b;\n", "return b;", 7),
+        ("tentative/static-twice", "static int s; static int s;\n", "return s + 3;", 3),
+        ("tentative/static-then-initialised", "static int s; static int s = 4;\n", "return s;", 4),
+        ("tentative/extern-then-tentative", "extern int c; int c;\n", "return c + 9;", 9),
+        ("tentative/incomplete-then-complete", "int e[]; int e[3] = {1, 2, 3};\n", "return e[2] * 100 + sizeof(e);", 312),
+        ("tentative/incomplete-then-complete-tentative", "int e[]; int e[3];\n", "return e[2] + sizeof(e);", 12),
+        ("tentative/complete-then-incomplete", "int a4[4]; int a4[];\n", "return a4[3] + sizeof(a4);", 16),
+        ("tentative/complete-then-extern-incomplete", "int a4[4]; extern int a4[];\n", "return a4[3] + sizeof(a4);", 16),
+        ("extern/with-initializer", "extern int x = 5;\n", "return x;", 5),
+        ("extern/declared-then-defined", "extern long y; long y = 1L << 40;\n", "return y >> 38;", 4),
+        ("static-local/counter-image", "", "static int n = 41; return n + 1;", 42),
+        ("static-local/array-and-string", "", "static char t[] = \"xyz\"; static const char *u = \"pq\"; return t[1] * 1000 + u[1];", 121 * 1000 + 113),
+    ]
+    P = []
+    for k, (key, pre, body, want) in enumerate(cases):
+        fn = "lk%d" % k
+        p = e2.ScalarProbe("unit/" + key, fn, LONG, [], body, (lambda w: lambda: (z3.BitVecVal(w, 64), TRUE))(want), family="unit", pre=pre, max_visits=16)
+        # several probes share one file: rename the file-scope identifiers per probe
+        names = sorted(set(re.findall(r"\b(?:int|long|char|struct Ops|void)\s+\(?\*?([A-Za-z_]\w*)", pre)) | {"Ops", "f", "g", "h", "dead", "apply"}, key=len, reverse=True)
+        for nm in names:
+            if nm in ("void", "fn", "k", "op"):
+                continue
+            p.csrc = re.sub(r"\b%s\b" % re.escape(nm), "%s_%s" % (nm, fn), p.csrc)
+        p.inline = "*"
+        p.comm_zero = True
+        P.append(p)
+    e2.run_probes(chk, P, chunk=3)
+    chk.bounds.append("unit/*: %d single translation units (static inline call chains reached by call / file-scope pointer / table / static local / address-taken / argument / "
+                      "struct initializer, repeated and mixed tentative/extern/static/initialised declarations incl. incomplete array types, extern with initializer, static locals), "
+                      "executed symbolically at program start with every same-unit call inlined" % len(P))
+    chk.assumptions.append("unit/*: single-unit program start: initialised data = the emitted image, common symbols = zero bytes")
+    chk.functions.update(["parse.c:function/global_variable/primary (reference recording)/scan_globals/mark_live (via emitted code)", "codegen.c:emit_data/emit_text (via emitted code)"])
 
 
 replay = vf.generic_replay
